@@ -33,8 +33,8 @@ static Obs observe(const ExplicitTreeAut& x, int n, const std::vector<size_t>& p
   return o;
 }
 
-static void smallSingle(Env& env, const std::string& stage, int n, const dom::Alphabet& sig, int k) {
-  auto D = std::make_shared<dom::TADomain>(n, sig, k); int ns = (int)sig.ranks.size();
+static void smallSingle(Env& env, const std::string& stage, int n, const dom::Alphabet& sig, int k, bool trimmedOnly = false) {
+  auto D = trimmedOnly ? std::make_shared<dom::TADomain>(n, sig, k, false, true) : std::make_shared<dom::TADomain>(n, sig, k); if (trimmedOnly) D->keepTrimmedOnly(); int ns = (int)sig.ranks.size();
   std::vector<std::vector<size_t>> perms; { std::vector<size_t> p(n); for (int i = 0; i < n; i++) p[i] = i; do perms.push_back(p); while (std::next_permutation(p.begin(), p.end())); }
   std::vector<std::vector<int>> sperms; { std::vector<int> p(ns); for (int i = 0; i < ns; i++) p[i] = i; do sperms.push_back(p); while (std::next_permutation(p.begin(), p.end())); }
   dom::forEachTA(env, stage, D, [D, perms, sperms, n](const ref::TA& A, size_t idx, Ctx& c) {
@@ -166,6 +166,10 @@ static void corpusTriples(Env& env, const std::string& stage, const std::string&
 }
 
 static Register s1("c19.small.single.n3k3", "C19", "every automaton of TA(3,{a:0,f:1,g:2},<=3) under ALL state bijections x 2 embeddings x ALL symbol-id permutations x ALL rule insertion orders: emptiness, Reduce/trim sizes, simulations", [](Env& e) { smallSingle(e, "c19.small.single.n3k3", 3, dom::Sigma3p(), 3); });
+static Register st3("c19.small.single.trim.n3ahk3", "C19", "every TRIMMED automaton of TA(3,{a:0,h:3},<=3) (ternary symbol: contexts with two siblings) under all state bijections x 2 embeddings x symbol-id permutations x all rule insertion orders: emptiness, Reduce/trim sizes, downward AND upward simulation mapped back", [](Env& e) { smallSingle(e, "c19.small.single.trim.n3ahk3", 3, dom::SigmaAH(), 3, true); });
+static Register st4("c19.small.single.trim.n3agk4", "C19", "every TRIMMED automaton of TA(3,{a:0,g:2},<=4) under all renamings / orders: incl. upward simulation mapped back", [](Env& e) { smallSingle(e, "c19.small.single.trim.n3agk4", 3, dom::SigmaAG(), 4, true); });
+static Register st5("c19.small.single.trim.n3s3pk4", "C19", "every TRIMMED automaton of TA(3,{a:0,f:1,g:2},<=4) under all renamings / orders", [](Env& e) { smallSingle(e, "c19.small.single.trim.n3s3pk4", 3, dom::Sigma3p(), 4, true); });
+static Register st6("c19.small.single.trim.n4agk4", "C19", "every TRIMMED automaton of TA(4,{a:0,g:2},<=4) under all 24 state bijections / orders", [](Env& e) { smallSingle(e, "c19.small.single.trim.n4agk4", 4, dom::SigmaAG(), 4, true); });
 static Register s2("c19.small.single.n3k2", "C19", "TA(3,{a:0,f:1,g:2},<=2) under all renamings/orders", [](Env& e) { smallSingle(e, "c19.small.single.n3k2", 3, dom::Sigma3p(), 2); });
 static Register s3("c19.small.pairs.n2t3", "C19", "every pair of TA(2,{a:0,b:0,g:2}) with total <=3 rules under all bijections x embeddings x symbol-id permutations x insertion orders, 8 inclusion variants", [](Env& e) { smallPairs(e, "c19.small.pairs.n2t3", 2, dom::Sigma2(), 2, 3); });
 static Register s4("c19.small.pairs.n2k2", "C19", "every pair of TA(2,{a:0,b:0,g:2},<=2 per side) under all renamings/orders, 8 variants", [](Env& e) { smallPairs(e, "c19.small.pairs.n2k2", 2, dom::Sigma2(), 2, 4); });
